@@ -135,6 +135,7 @@ void run_c06() {
     bool from_buffer = false;
     // memory inputs are delivered in one piece unless they are compressed (10 KiB pieces)
     if (is_compressed(in.suffix) && choose(S_WORK, 2)) { from_buffer = true; }
+    if (in.buffer_only) { from_buffer = true; }
     // every truncation of a valid file is an input too
     std::string extra;
     if (choose(S_WORK, 3) == 0 && in.bytes.size() > 1) {
@@ -171,7 +172,7 @@ void run_c06() {
 void run_c05() {
     simfs::reset();
     Input in = pick_input(400, static_cast<int>(choose(S_WORK, 2)), 12);
-    const bool from_buffer = choose(S_WORK, 4) == 0;
+    const bool from_buffer = choose(S_WORK, 4) == 0 || in.buffer_only;
     put_input(in);
     sim::clear_values();
     const Outcome ref = reference_read(in, from_buffer);
